@@ -208,6 +208,10 @@ func (f *flush) addBaseTimer(name string, timer gostatsd.Timer) {
 }
 
 func (f *flush) addHistogramTimer(name string, timer gostatsd.Timer) {
+	if len(timer.Histogram) == 0 {
+		// No buckets (timer-histogram-limit is 0), there are no fields to write.
+		return
+	}
 	writeName(f.writer, name, timer.Tags)
 
 	var sb strings.Builder
